@@ -3,6 +3,7 @@ import MiniconfVerif.Model.PathDriver
 import MiniconfVerif.Model.TreeDriver
 import MiniconfVerif.Model.ValueDriver
 import MiniconfVerif.Model.MqttDriver
+import MiniconfVerif.Model.PyDriver
 
 open MiniconfVerif
 
@@ -23,6 +24,11 @@ def handle (st : DState) (line : String) : DState × String :=
     match stream with
     | "pk" => (st, s!"{id} {PackedDriver.run args}")
     | "st" => (st, s!"{id} {PathDriver.run args}")
+    | "py" =>
+      match args with
+      | "norm" :: paths => (st, s!"{id} {PyDriver.runNorm paths}")
+      | variant :: events => (st, s!"{id} {PyDriver.run variant events}")
+      | [] => (st, s!"{id} bad-op")
     | "T" =>
       match args with
       | tid :: rest =>
